@@ -187,14 +187,29 @@ def _project_to_subspace(
     occupation_number = fallback_np.empty(state.d, dtype=int)
     occupation_number[measured_modes] = subspace_basis
 
+    occupied_measured_modes = [
+        mode for mode, count in zip(measured_modes, subspace_basis) if count
+    ]
+
     for remaining_index, remaining_occupation_number in enumerate(remaining_basis):
         occupation_number[remaining_modes] = remaining_occupation_number
         index = get_fock_space_index(occupation_number)
 
+        # NOTE: Anticommuting the creation operators of the measured modes to the front
+        # of the operator string gives a sign for each occupied remaining mode
+        # preceding an occupied measured mode.
+        transpositions = sum(
+            int(occupation_number[mode])
+            for measured_mode in occupied_measured_modes
+            for mode in remaining_modes
+            if mode < measured_mode
+        )
+        sign = -1 if transpositions % 2 else 1
+
         new_state._state_vector = connector.assign(
             new_state.state_vector,
             remaining_index,
-            normalization * state.state_vector[index],
+            sign * normalization * state.state_vector[index],
         )
 
     return new_state
